@@ -77,6 +77,11 @@ def run(ctx):
     for fe in ('v2', 'v1'):
         for tag, h in P.targeted(fe):
             P.check_history(ctx, fe, h, 'targeted.' + tag, 'C03')
+        # deferred first await: the awaitable returned by express() starts to run some time after the Interest was sent
+        for tag, h in P.deferred_family(fe, full=ctx.thorough):
+            P.check_history(ctx, fe, h, tag if tag.startswith('deferred-') else 'targeted-' + tag, 'C03')
+        for k in range(ctx.n(300, 4000)):
+            P.check_history(ctx, fe, P.rand_history_deferred(ctx.rng, fe), 'random-deferred-await', 'C03')
         n = ctx.n(900, 8000)
         for k in range(n):
             wf = ctx.rng.random() < 0.85
